@@ -30,7 +30,8 @@ COMPONENTS = {
     "simulated": ["Dask executor (worker count, task order, overlap)", "uuid4"],
 }
 EXPECTED_PROBES = ["returned", "empty_input_partition", "more_partitions_than_rows",
-                   "independence_compared", "missing_rows_present"]
+                   "independence_compared", "missing_rows_present",
+                   "packed_after_cached_bounds_and_mask"]
 
 
 def cases(tier, base_seed):
@@ -43,10 +44,18 @@ def cases(tier, base_seed):
 
         def parts():
             k = rng.randint(1, min(8, n))
-            if rng.random() < 0.4:
+            r = rng.random()
+            if r < 0.35:
                 return {"mode": "splits", "splits": gen.gen_splits(rng, n, k)}
+            if r < 0.5:
+                return {"mode": "repartition", "k": k, "to": rng.randint(1, min(8, n))}
+            if r < 0.6:
+                return {"mode": "concat_empty", "k": k}
             return {"mode": "even", "k": k}
-        yield {"seed": seed, "frame": frame, "parts": parts(), "parts2": parts(),
+        pre = None
+        if rng.random() < 0.3:
+            pre = {"warm": rng.random() < 0.7, "mod": rng.choice((2, 3, 4)), "rem": rng.randint(0, 1)}
+        yield {"seed": seed, "frame": frame, "parts": parts(), "parts2": parts(), "pre": pre,
                "npartitions": rng.choice((1, 2, 3, 4, 5, 8, 11, 16)),
                "p": rng.choice((1, 2, 3, 5, 8, 10, 15, 20)),
                "sim": e1.gen_sim_cfg(rng)}
@@ -59,11 +68,17 @@ def warmup():
         break
 
 
-def _pack(spec, parts, npartitions, p, tag):
+def _pack(spec, parts, npartitions, p, tag, pre=None):
     """pack_partitions as a user observes it: .compute() for the rows, the per-partition
-    lengths for the partition structure, .npartitions for the count."""
+    lengths for the partition structure, .npartitions for the count.  `pre`: the frame's
+    history before packing - partition bounds / index cached on the parent, then a row mask."""
     gdf = gen.build_frame(spec)
     ddf = e1.make_ddf(gdf, parts, tag)
+    if pre:
+        if pre.get("warm"):
+            ddf.partition_sindex          # fills the parent's partition-bounds cache
+        ddf = ddf[ddf["v"] % pre["mod"] != pre["rem"]]
+    active = ddf.geometry.name      # "the active geometry" = what the input frame reports
     packed = ddf.pack_partitions(npartitions=npartitions, p=p)
     whole = packed.compute()
     lens = [int(x) for x in packed.map_partitions(len).compute().tolist()]
@@ -73,11 +88,19 @@ def _pack(spec, parts, npartitions, p, tag):
     for n in lens:
         out.append(whole.iloc[a:a + n])
         a += n
-    return out, packed.npartitions, ddf
+    return out, packed.npartitions, ddf, active
 
 
 def run_case(case):
-    spec = case["frame"]
+    full = case["frame"]
+    pre = case.get("pre")
+    spec = full
+    if pre:
+        keep = [i for i, v in enumerate(full["extra"]["v"]) if v % pre["mod"] != pre["rem"]]
+        spec = gen.shrink_spec_rows(full, keep)      # the rows the packed frame must hold
+        if not keep:
+            pre = None
+            spec = full
     sim = e1.new_sim(case["seed"], case["sim"])
     probes = {}
     sig = {"npartitions": case["npartitions"]}
@@ -86,6 +109,8 @@ def run_case(case):
         probes["missing_rows_present"] = 1
     if case["parts"]["mode"] == "splits" and any(not s for s in case["parts"]["splits"]):
         probes["empty_input_partition"] = 1
+    if case["parts"]["mode"] in ("repartition", "concat_empty"):
+        probes["input_partitions_made_by_dask"] = 1
     if case["npartitions"] > spec["n"]:
         probes["more_partitions_than_rows"] = 1
     bad = None
@@ -93,8 +118,16 @@ def run_case(case):
     try:
         with seams.installed(sim, None):
             try:
-                parts, np_, ddf0 = _pack(spec, case["parts"], case["npartitions"], case["p"],
-                                         "a")
+                parts, np_, ddf0, act = _pack(full, case["parts"], case["npartitions"],
+                                              case["p"], "a", pre)
+                if act != spec["active"]:
+                    # the input collection reports another active column than the pandas frame
+                    # it was made from (that is C20's business): pack must follow the collection
+                    probes["input_collection_active_differs"] = 1
+                    spec = dict(spec, active=act)
+                if pre:
+                    probes["packed_after_cached_bounds_and_mask" if pre.get("warm")
+                           else "packed_after_mask"] = 1
             except HarnessError:
                 raise
             except Exception as e:  # noqa: BLE001 - the property claims nothing when it raises
@@ -127,8 +160,10 @@ def run_case(case):
                            "partitions actually computed")
                 if bad is None:
                     try:
-                        parts2, _, _ = _pack(spec, case["parts2"], case["npartitions"],
-                                             case["p"], "b")
+                        parts2, _, _, act2 = _pack(full, case["parts2"], case["npartitions"],
+                                                   case["p"], "b", pre)
+                        if act2 != act:
+                            parts2 = None
                     except HarnessError:
                         raise
                     except Exception:  # noqa: BLE001
@@ -170,13 +205,17 @@ def shrink_candidates(case):
         d = copy.deepcopy(c)
         d["sim"] = ref
         yield d
+    if c.get("pre"):
+        d = copy.deepcopy(c)
+        d["pre"] = None
+        yield d
     for key in ("parts", "parts2"):
         if c[key] != {"mode": "even", "k": 1}:
             d = copy.deepcopy(c)
             d[key] = {"mode": "even", "k": 1}
             yield d
     n = c["frame"]["n"]
-    if n > 1 and c["parts"]["mode"] == "even" and c["parts2"]["mode"] == "even":
+    if n > 1 and c["parts"]["mode"] == "even" and c["parts2"]["mode"] == "even" and not c.get("pre"):
         size = n // 2
         while size >= 1:
             for s in range(0, n, size):
